@@ -314,7 +314,7 @@ def run(ctx):
     out = common.Outcome()
     out.proof = common.proof_status(FAMILY, PROPFILE)
     rng = ctx.rng
-    n = ctx.scale(2500, 30000)
+    n = ctx.scale(2000, 20000)
     hs = list(FIXED) + corpus_cases()
     hs += [gen_history(rng, in_scope=(rng.random() < 0.9)) for _ in range(n)]
     cases, seen, stats = [], set(), {}
